@@ -1084,6 +1084,33 @@ static bool check_tid_list(void)
 	return true;
 }
 
+/*
+ * A fork that was announced (FORK_START from the atfork prepare handler) but
+ * never produced a child: fork() failed, or the process was killed before the
+ * child could send FORK_END.  Once no process has the pipe open for writing
+ * no FORK_END can arrive anymore: stop waiting for it.
+ */
+static void forget_unfinished_forks(int pfd)
+{
+	struct tid_list *tl;
+	struct pollfd pollfd = {
+		.fd = pfd,
+		.events = POLLIN,
+	};
+
+	if (poll(&pollfd, 1, 0) <= 0)
+		return;
+	if (!(pollfd.revents & POLLHUP) || (pollfd.revents & POLLIN))
+		return;
+
+	list_for_each_entry(tl, &tid_list_head, list) {
+		if (tl->tid < 0 && !tl->exited) {
+			pr_dbg("fork of %d never finished\n", tl->pid);
+			tl->exited = true;
+		}
+	}
+}
+
 struct dlopen_list {
 	struct list_head list;
 	char *libname;
@@ -1920,6 +1947,7 @@ static int stop_tracing(struct writer_data *wd, struct uftrace_opts *opts)
 		 * order to get proper pid.  Otherwise replay will fail with
 		 * pid of -1.
 		 */
+		forget_unfinished_forks(wd->pipefd);
 		if (check_tid_list())
 			break;
 
